@@ -15,6 +15,7 @@ from . import _partner as P
 ID = "C09"
 OPTIMISED_STRIDE = {"quick": 10, "thorough": 20}      # every k-th shard once more in an interpreter started with -O
 TRACE_STRIDE = {"quick": 10, "thorough": 20}      # every k-th shard once more with logging enabled down to TRACE
+BYTEORDER_STRIDE = {"quick": 12, "thorough": 24}      # every k-th shard once more with sys.byteorder reporting a big-endian host
 CHAIN_STRIDE = {'quick': 12, 'thorough': 40}      # every k-th shard is re-run in chains inside one process (non-initial process states)
 LEVEL = "model_checking"
 ENGINE = "E2"
